@@ -35,7 +35,9 @@ RULE = ('a case = one dataset built with the real kapture classes and written by
         'correspondence is checked there. A third stream are HISTORIES: 2..3 export/import round trips of different (mostly rich) datasets made one '
         'after the other in ONE python process of their own, each import with its own options (database + text / database only / text only, '
         'skip_reconstruction, no_geometric_filtering); fixed patterns light>full, full>text-only, db>full>text, text-skip>db-skip>full plus random '
-        'ones; every call is judged by the oracle for its options and compared with the model of that call alone. Every case also feeds 12 random (a, b) with 0 <= a, b < MAX_IMAGE_ID through the real '
+        'ones; a fourth stream RE-USES the export target (same database path and reconstruction directory, force overwrite) for a rich dataset '
+        'followed by one lacking points+observations / trajectories / keypoints / matches / descriptors; '
+        'every call is judged by the oracle for its options and compared with the model of that call alone. Every case also feeds 12 random (a, b) with 0 <= a, b < MAX_IMAGE_ID through the real '
         'image_ids_to_pair_id / pair_id_to_image_ids. Non-trivial = in-range dataset with at least two images and at least one '
         'of {pose, keypoints, matches, points}; distinct = distinct dataset content.')
 TRUSTED = ['sqlite3 and the numpy blobs (float64 / float32 / uint8 / uint32 arrays are modelled as lists of exact numbers)',
@@ -261,6 +263,37 @@ def _rich_dataset(rng, tier):
     return d
 
 
+STRIP = ['points', 'traj', 'kp', 'matches', 'desc']
+
+
+def _stripped_dataset(rng, tier, what):
+    """a rich dataset without one of the parts an earlier export to the same target may have written"""
+    d = _rich_dataset(rng, tier)
+    if what == 'points':
+        d['points'] = d['obs'] = None
+    elif what == 'traj':
+        d['traj'] = None
+    elif what == 'kp':
+        d['kp'] = d['desc'] = d['matches'] = d['obs'] = None
+    elif what == 'matches':
+        d['matches'] = None
+    elif what == 'desc':
+        d['desc'] = None
+    return d
+
+
+def _shared_history(rng, tier, k):
+    """round trips that RE-USE the export target (same database path, same reconstruction directory, force overwrite): the second
+    dataset lacks a part the first one had, so anything the exporter leaves behind is imported as if it belonged to it"""
+    what = STRIP[k % len(STRIP)]
+    steps = [_rich_dataset(rng, tier), _stripped_dataset(rng, tier, what)]
+    if rng.random() < 0.3:
+        steps.append(_stripped_dataset(rng, tier, rng.choice(STRIP)))
+    for d in steps:
+        d['opts'] = dict(FULL)
+    return {'history': steps, 'shared_target': True, 'in_range': True, 'tag': 'reuse/full>full-without-' + what}
+
+
 def _history(rng, tier, pattern):
     steps = []
     for o in pattern:
@@ -272,7 +305,7 @@ def _history(rng, tier, pattern):
 
 
 def gen_cases(rng, tier):
-    n_in, n_out, n_hist = (48, 12, 12) if tier == 'quick' else (520, 90, 90)
+    n_in, n_out, n_hist, n_reuse = (44, 12, 9, 5) if tier == 'quick' else (500, 90, 80, 40)
     cases = []
     for _ in range(n_in):
         cases.append(_gen_dataset(rng, tier, 'in'))
@@ -286,6 +319,8 @@ def gen_cases(rng, tier):
             pattern = [{'src': rng.choice(['both', 'both', 'db', 'txt']), 'skip': rng.random() < 0.3, 'nogeom': rng.random() < 0.5}
                        for _ in range(rng.choice([2, 3]))]
         cases.append(_history(rng, tier, pattern))
+    for k in range(n_reuse):
+        cases.append(_shared_history(rng, tier, k))
     m = _max_image_id()
     for c in cases:
         c['pairs'] = [[rng.choice([rng.randrange(m), rng.randrange(10), m - 1 - rng.randrange(3)]),
@@ -394,15 +429,16 @@ def _read_dataset(k, kdir, kp_type, ds_type):
     return out
 
 
-def _run_step(ds, opts, base):
-    """one export_colmap + import_colmap of one dataset with the given import options, in this process"""
+def _run_step(ds, opts, base, target=None):
+    """one export_colmap + import_colmap of one dataset with the given import options, in this process; [target]: a directory
+    that already holds the database and reconstruction of earlier exports and is re-used (force_overwrite_existing=True)"""
     import kapture.io.csv as kcsv
     from kapture.converter.colmap.export_colmap import export_colmap
     from kapture.converter.colmap.import_colmap import import_colmap
     shutil.rmtree(base, ignore_errors=True)
-    kdir, cdir, odir = os.path.join(base, 'kapture'), os.path.join(base, 'colmap'), os.path.join(base, 'imported')
+    kdir, cdir, odir = os.path.join(base, 'kapture'), target or os.path.join(base, 'colmap'), os.path.join(base, 'imported')
     os.makedirs(kdir)
-    os.makedirs(cdir)
+    os.makedirs(cdir, exist_ok=True)
     try:
         _build(ds, kdir)
         loaded = _read_dataset(kcsv.kapture_from_dir(kdir), kdir, KP, DS)
@@ -438,12 +474,15 @@ def _run_step(ds, opts, base):
         shutil.rmtree(base, ignore_errors=True)
 
 
-def _run_history(steps, base):
+def _run_history(steps, base, shared_target=False):
     logging.disable(logging.CRITICAL)
+    target = os.path.join(base, 'target') if shared_target else None
     try:
-        return [_run_step(ds, ds.get('opts', FULL), os.path.join(base, f's{i}')) for i, ds in enumerate(steps)]
+        return [_run_step(ds, ds.get('opts', FULL), os.path.join(base, f's{i}'), target) for i, ds in enumerate(steps)]
     finally:
         logging.disable(logging.NOTSET)
+        if target:
+            shutil.rmtree(target, ignore_errors=True)
 
 
 def run_impl(case, ctx):
@@ -457,7 +496,7 @@ def run_impl(case, ctx):
             # history and by nothing else, so a failing history fails again when replayed alone
             fin, fout = os.path.join(base, 'history.json'), os.path.join(base, 'observed.json')
             with open(fin, 'w') as f:
-                json.dump(case['history'], f)
+                json.dump({'steps': case['history'], 'shared_target': bool(case.get('shared_target'))}, f)
             p = subprocess.run([kv.PY, '-B', os.path.abspath(__file__), fin, fout, os.path.join(base, 'w')], env=kv.impl_env(),
                                stdout=subprocess.PIPE, stderr=subprocess.STDOUT, text=True, timeout=CASE_TIMEOUT - 10)
             if p.returncode != 0 or not os.path.exists(fout):
@@ -655,7 +694,7 @@ def oracle(case, obs):
         if sig:
             if len(obs['steps']) > 1:
                 before = '>'.join(s['opts']['src'] + ('-skip' if s['opts']['skip'] else '') for s in obs['steps'][:k]) or 'nothing'
-                return f'{sig} (call {k + 1} of a history, after: {before})'
+                return f'{sig} (call {k + 1} of a history{" re-using the export target" if case.get("shared_target") else ""}, after: {before})'
             return sig
     return None
 
@@ -835,7 +874,7 @@ LEVEL_NOTE = ('partial: SQLite, numpy blobs, text lexing, float printing/parsing
 
 if __name__ == '__main__':
     # history worker: python c13.py <history.json> <observed.json> <scratch dir>  -- all calls of one history in THIS process
-    _steps = json.load(open(sys.argv[1]))
-    _out = _run_history(_steps, sys.argv[3])
+    _job = json.load(open(sys.argv[1]))
+    _out = _run_history(_job['steps'], sys.argv[3], _job['shared_target'])
     with open(sys.argv[2], 'w') as _f:
         json.dump(_out, _f)
